@@ -61,7 +61,7 @@ def build_cases(ctx):
     ctx.coverage['corpus'] = {'programs': len(corpus), 'assembled_quickly_and_mutated': len(fast), 'runs': len(ccases)}
     if not fast:
         raise RuntimeError('no program of the mutation corpus assembles: ' + json.dumps([o.get('msg', o['result'])[:200] for o in cobs[:3]]))
-    groups.append(bg.gen_mutations(rng, ctx.n(1600, 40000), fast))
+    groups.append(bg.gen_mutations(rng, ctx.n(1600, 24000), fast))
     cases = finish_cases([c for g in groups for c in g], len(ccases))
     return ccases + cases, cobs
 
